@@ -3,7 +3,6 @@ package main
 import (
 	"fmt"
 	"go/ast"
-	"go/token"
 	"go/types"
 )
 
@@ -24,251 +23,6 @@ func checkC09(r *Run) {
 	setLocalRule(r, "R3")
 	helperScopeRule(r, "R4")
 	paramsInChildRuleSSA(r, "R5")
-}
-
-// ctxStores collects, per top-level function, the stores to the evaluator's
-// current-scope field.
-type ctxStore struct {
-	as       ast.Node // the assignment (or, for a named restore helper, the defer statement)
-	rhs      ast.Expr
-	deferred *ast.DeferStmt // non-nil when inside `defer func(){...}()` or `defer restoreHelper(x)`
-	lit      *ast.FuncLit
-	helper   bool // restored through a named helper: the argument is evaluated at defer time
-}
-
-// restoreHelpers: functions whose whole body is `<x>.ctx = <parameter>`; a
-// `defer helper(v)` is the named form of `defer func() { x.ctx = v }()`.
-func (w *World) restoreHelpers() map[*types.Func]int {
-	out := map[*types.Func]int{}
-	ctxF := w.compilerField("ctx")
-	for _, f := range w.Funcs("") {
-		if len(f.Decl.Body.List) != 1 {
-			continue
-		}
-		as, ok := f.Decl.Body.List[0].(*ast.AssignStmt)
-		if !ok || len(as.Lhs) != 1 || len(as.Rhs) != 1 {
-			continue
-		}
-		if _, fld := fieldOf(f.Pkg.TypesInfo, as.Lhs[0]); fld == nil || fld != ctxF {
-			continue
-		}
-		sig := f.Obj.Type().(*types.Signature)
-		for i := 0; i < sig.Params().Len(); i++ {
-			if objOf(f.Pkg.TypesInfo, as.Rhs[0]) == sig.Params().At(i) {
-				out[f.Obj] = i
-			}
-		}
-	}
-	return out
-}
-
-func (w *World) ctxStoresOf(f *FuncInfo) []ctxStore {
-	info := f.Pkg.TypesInfo
-	ctxF := w.compilerField("ctx")
-	helpers := w.restoreHelpers()
-	var out []ctxStore
-	if _, isHelper := helpers[f.Obj]; isHelper {
-		return nil
-	}
-	var visit func(n ast.Node, d *ast.DeferStmt, lit *ast.FuncLit)
-	visit = func(n ast.Node, d *ast.DeferStmt, lit *ast.FuncLit) {
-		ast.Inspect(n, func(m ast.Node) bool {
-			switch x := m.(type) {
-			case *ast.DeferStmt:
-				if fl, ok := x.Call.Fun.(*ast.FuncLit); ok {
-					visit(fl.Body, x, fl)
-					return false
-				}
-				if idx, ok := helpers[calleeOf(info, x.Call)]; ok && idx < len(x.Call.Args) {
-					out = append(out, ctxStore{x, x.Call.Args[idx], x, nil, true})
-					return false
-				}
-			case *ast.FuncLit:
-				if m != n {
-					visit(x.Body, nil, x)
-					return false
-				}
-			case *ast.AssignStmt:
-				for i, l := range x.Lhs {
-					if _, fld := fieldOf(info, l); fld != nil && fld == ctxF {
-						var rhs ast.Expr
-						if len(x.Rhs) == len(x.Lhs) {
-							rhs = x.Rhs[i]
-						}
-						out = append(out, ctxStore{x, rhs, d, lit, false})
-					}
-				}
-			}
-			return true
-		})
-	}
-	visit(f.Decl.Body, nil, nil)
-	return out
-}
-
-func scopePairingRule(r *Run, rule string) {
-	w := r.W
-	ctxF := w.compilerField("ctx")
-	if ctxF == nil {
-		r.Lost(rule, "current-scope field of the evaluator")
-		return
-	}
-	for _, f := range w.Funcs("") {
-		info := f.Pkg.TypesInfo
-		stores := w.ctxStoresOf(f)
-		if len(stores) == 0 {
-			continue
-		}
-		var installs, restores []ctxStore
-		for _, s := range stores {
-			if s.deferred != nil {
-				restores = append(restores, s)
-			} else if s.lit != nil {
-				r.Bad(rule, f.Name(), "scope pointer written inside a function literal", w.Pos(s.as.Pos()), "the current scope is changed from a closure that is not a deferred restore")
-			} else {
-				installs = append(installs, s)
-			}
-		}
-		// pair every install with a restore in the same block
-		used := map[*ast.DeferStmt]bool{}
-		for _, in := range installs {
-			con := "install " + short(w.Fset, in.as)
-			blk, _ := w.Parent(in.as).(*ast.BlockStmt)
-			var pair *ctxStore
-			for i := range restores {
-				rs := &restores[i]
-				if used[rs.deferred] {
-					continue
-				}
-				if pb, _ := w.Parent(rs.deferred).(*ast.BlockStmt); pb == blk && blk != nil && rs.deferred.Pos() < in.as.Pos() {
-					pair = rs
-				}
-			}
-			if pair == nil {
-				r.Bad(rule, f.Name(), con+" without deferred restore", w.Pos(in.as.Pos()),
-					"the current scope is replaced but no 'defer func() { <scope> = <saved> }()' precedes the install in the same block: an error return or a later exit leaves the evaluator in the inner scope")
-				continue
-			}
-			used[pair.deferred] = true
-			if pair.helper {
-				// defer restore(<field itself>): the argument is evaluated now, i.e. it IS the saved value
-				if _, fld := fieldOf(info, pair.rhs); fld == ctxF {
-					okInstall, how := installIsFresh(w, info, f, in.rhs, nil, ctxF)
-					if okInstall {
-						r.Ok(rule, f.Name(), con, w.Pos(in.as.Pos()), "old scope captured as the argument of a deferred restore helper; "+how)
-					} else {
-						r.Bad(rule, f.Name(), con, w.Pos(in.as.Pos()), "the installed scope must be a fresh child of the saved scope (<saved>.New()) or, in BlockWith, the context passed by the caller")
-					}
-					continue
-				}
-			}
-			// the restore closure: exactly one statement, restoring a local
-			saved := objOf(info, pair.rhs)
-			if (!pair.helper && len(pair.lit.Body.List) != 1) || saved == nil {
-				r.Bad(rule, f.Name(), "restore "+short(w.Fset, pair.as), w.Pos(pair.as.Pos()), "the deferred restore must assign the saved local back, and nothing else")
-				continue
-			}
-			if _, isVar := saved.(*types.Var); !isVar || saved.Parent() == nil || saved.Parent() == f.Pkg.Types.Scope() {
-				r.Bad(rule, f.Name(), "restore "+short(w.Fset, pair.as), w.Pos(pair.as.Pos()), "the restored value is not a local saved on entry")
-				continue
-			}
-			// the saved local: defined once, from the scope field (possibly through a comma-ok assertion), before the defer
-			nDefs := 0
-			goodDef := false
-			inspectBody(f.Decl.Body, false, func(n ast.Node) bool {
-				as, ok := n.(*ast.AssignStmt)
-				if !ok {
-					return true
-				}
-				for i, l := range as.Lhs {
-					if objOf(info, l) != saved {
-						continue
-					}
-					nDefs++
-					if as.Pos() > pair.deferred.Pos() {
-						continue
-					}
-					_ = pair
-					var rhs ast.Expr
-					if len(as.Rhs) == len(as.Lhs) {
-						rhs = as.Rhs[i]
-					} else if len(as.Rhs) == 1 && i == 0 {
-						rhs = as.Rhs[0]
-					}
-					if ta, ok := unparen(rhs).(*ast.TypeAssertExpr); ok {
-						rhs = ta.X
-					}
-					if _, fld := fieldOf(info, rhs); fld == ctxF {
-						goodDef = true
-					}
-				}
-				return true
-			})
-			if nDefs != 1 || !goodDef {
-				r.Bad(rule, f.Name(), "saved scope "+saved.Name(), w.Pos(pair.as.Pos()),
-					"the value restored on exit must be a local assigned exactly once, from the current-scope field, before the defer")
-				continue
-			}
-			// the installed value
-			okInstall, how := installIsFresh(w, info, f, in.rhs, saved, ctxF)
-			if !okInstall {
-				r.Bad(rule, f.Name(), con, w.Pos(in.as.Pos()), "the installed scope must be a fresh child of the saved scope (<saved>.New()) or, in BlockWith, the context passed by the caller")
-				continue
-			}
-			r.Ok(rule, f.Name(), con, w.Pos(in.as.Pos()), "saved in "+saved.Name()+", restored by defer; "+how)
-		}
-		for _, rs := range restores {
-			if !used[rs.deferred] {
-				r.Bad(rule, f.Name(), "deferred scope write without install "+short(w.Fset, rs.as), w.Pos(rs.as.Pos()), "a deferred write of the scope pointer that does not belong to a save/install/restore triple")
-			}
-		}
-	}
-}
-
-func installIsFresh(w *World, info *types.Info, f *FuncInfo, rhs ast.Expr, saved types.Object, ctxF *types.Var) (bool, string) {
-	if call, ok := unparen(rhs).(*ast.CallExpr); ok {
-		sel, ok := unparen(call.Fun).(*ast.SelectorExpr)
-		if ok && len(call.Args) == 0 {
-			cal := calleeOf(info, call)
-			if cal != nil && cal.Name() == "New" {
-				if objOf(info, sel.X) == saved {
-					return true, "fresh child of the saved scope"
-				}
-				if _, fld := fieldOf(info, sel.X); fld == ctxF {
-					return true, "fresh child of the current scope"
-				}
-			}
-		}
-		return false, ""
-	}
-	// BlockWith: a local obtained from the function's own context parameter
-	if o := objOf(info, rhs); o != nil {
-		sig := f.Obj.Type().(*types.Signature)
-		fromParam := false
-		inspectBody(f.Decl.Body, false, func(n ast.Node) bool {
-			as, ok := n.(*ast.AssignStmt)
-			if !ok || len(as.Rhs) != 1 {
-				return true
-			}
-			if objOf(info, as.Lhs[0]) != o {
-				return true
-			}
-			e := unparen(as.Rhs[0])
-			if ta, ok := e.(*ast.TypeAssertExpr); ok {
-				e = ta.X
-			}
-			for i := 0; i < sig.Params().Len(); i++ {
-				if objOf(info, e) == sig.Params().At(i) && namedIs(sig.Params().At(i).Type(), hctxPath, "Context") {
-					fromParam = true
-				}
-			}
-			return true
-		})
-		if fromParam {
-			return true, "the context handed in by the caller"
-		}
-	}
-	return false, ""
 }
 
 // ---- R2 ---------------------------------------------------------------------
@@ -466,56 +220,7 @@ func helperScopeRule(r *Run, rule string) {
 	contentRulesSSA(r, "", "", "", rule)
 }
 
-func enclosingFuncBody(w *World, n ast.Node) *ast.BlockStmt {
-	for p := w.Parent(n); p != nil; p = w.Parent(p) {
-		switch x := p.(type) {
-		case *ast.FuncLit:
-			return x.Body
-		case *ast.FuncDecl:
-			return x.Body
-		}
-	}
-	return nil
-}
-
 // ---- R5 ---------------------------------------------------------------------
-
-func paramsInChildRule(r *Run, rule string) {
-	w := r.W
-	uf := w.userFunctionEval()
-	if uf == nil {
-		r.Lost(rule, "user-function call evaluator")
-		return
-	}
-	info := uf.Pkg.TypesInfo
-	ctxF := w.compilerField("ctx")
-	var install token.Pos
-	for _, s := range w.ctxStoresOf(uf) {
-		if s.deferred == nil && s.lit == nil {
-			install = s.as.Pos()
-		}
-	}
-	n := 0
-	for _, c := range callsIn(uf.Decl.Body, true) {
-		cal := calleeOf(info, c)
-		sel, isSel := unparen(c.Fun).(*ast.SelectorExpr)
-		if cal == nil || !isSel || cal.Name() != "Set" {
-			continue
-		}
-		if _, fld := fieldOf(info, sel.X); fld != ctxF {
-			continue
-		}
-		n++
-		if install.IsValid() && c.Pos() > install {
-			r.Ok(rule, uf.Name(), "parameter binding "+short(w.Fset, c), w.Pos(c.Pos()), "after the child scope was installed")
-		} else {
-			r.Bad(rule, uf.Name(), "parameter binding "+short(w.Fset, c), w.Pos(c.Pos()), "a parameter is bound before the function's own scope is installed: it lands in the caller's scope")
-		}
-	}
-	if n == 0 {
-		r.Bad(rule, uf.Name(), "no parameter binding", w.Pos(uf.Decl.Pos()), "parameters must be bound with Set on the installed child scope")
-	}
-}
 
 // userFunctionEval: the evaluator method with a parameter of type
 // *userFunction (the type holding Parameters and Block of a function literal).
